@@ -478,15 +478,8 @@ Section Equiv.
       { intros s' Hs'. rewrite resolve_seg_list, resolve_seg_sel. f_equal. apply map_ext. intros m.
         rewrite resolve_sels_cons, resolve_sels_nil, Hs'.
         destruct (resolve_sel s root ctx m) as [x|e]; cbn [bind]; [rewrite app_nil_r|]; reflexivity. }
-      destruct s as [k|i|a b c| | |e].
-      + apply (Hone (SName k)). reflexivity.
-      + apply (Hone (SIndex i)). reflexivity.
-      + change (norm_seg (GSel (SSlice a b c)))
-          with (GSel (SSlice a b (match c with None => Some 1 | _ => c end))).
-        rewrite !resolve_seg_sel. f_equal. apply map_ext. intros m. destruct c; reflexivity.
-      + apply (Hone SWild). reflexivity.
-      + apply (Hone SKeys). reflexivity.
-      + apply (Hone (SFilter (norm_expr e))). exact IH.
+      change (norm_seg (GSel s)) with (GList (LCons (norm_sel s) LNil)).
+      apply (Hone (norm_sel s)). exact IH.
     - reflexivity.
     - intros items IH root ctx ms.
       change (norm_seg (GList items)) with (GList (norm_sels items)). rewrite !resolve_seg_list.
@@ -803,7 +796,7 @@ Proof.
   induction p as [|g r IH]; [reflexivity|].
   change (norm_segs (PCons g r)) with (PCons (norm_seg g) (norm_segs r)).
   destruct g as [s| |items].
-  - destruct s as [k|i|a b c| | |e]; try reflexivity; simpl; exact IH.
+  - destruct s as [k|i|a b [c|]| | |e]; try reflexivity; simpl; exact IH.
   - reflexivity.
   - destruct items as [|s [|s' l]]; try reflexivity.
     + destruct s as [k|i|a b [c|]| | |e]; try reflexivity; simpl; exact IH.
@@ -911,14 +904,8 @@ Section GateNorm.
       rewrite !gate_sel_filter, g_testable_norm, IH. reflexivity.
     - intros s IHs r IHr. change (norm_sels (LCons s r)) with (LCons (norm_sel s) (norm_sels r)).
       rewrite !gate_sels_cons, IHs, IHr. reflexivity.
-    - intros s IH. destruct s as [k|i|a b c| | |e].
-      + reflexivity.
-      + cbn. apply andb_true_r.
-      + destruct c; [reflexivity|]. cbn. rewrite one_ok. reflexivity.
-      + reflexivity.
-      + reflexivity.
-      + change (norm_seg (GSel (SFilter e))) with (GList (LCons (norm_sel (SFilter e)) LNil)).
-        rewrite gate_seg_list1, gate_sels_cons, gate_seg_sel, IH. apply andb_true_r.
+    - intros s IH. change (norm_seg (GSel s)) with (GList (LCons (norm_sel s) LNil)).
+      rewrite gate_seg_list1, gate_sels_cons, gate_seg_sel, IH. apply andb_true_r.
     - intros items IH. change (norm_seg (GList items)) with (GList (norm_sels items)).
       destruct items as [|s r]; [reflexivity|].
       change (norm_sels (LCons s r)) with (LCons (norm_sel s) (norm_sels r)) in *.
@@ -993,10 +980,9 @@ Section PrintableNorm.
       change (pr_sels re_ok (LCons (norm_sel s) (norm_sels r)))
         with (pr_sel re_ok (norm_sel s) && pr_sels re_ok (norm_sels r)).
       rewrite (IHs Hs), (IHr Hr). reflexivity.
-    - intros s IH Hf. cbn [fl_seg] in Hf. destruct s as [k|i|a b c| | |e]; try reflexivity.
-      change (norm_seg (GSel (SFilter e))) with (GList (LCons (norm_sel (SFilter e)) LNil)).
-      change (pr_seg re_ok (GList (LCons (norm_sel (SFilter e)) LNil)))
-        with (pr_sel re_ok (norm_sel (SFilter e)) && true).
+    - intros s IH Hf. cbn [fl_seg] in Hf.
+      change (norm_seg (GSel s)) with (GList (LCons (norm_sel s) LNil)).
+      change (pr_seg re_ok (GList (LCons (norm_sel s) LNil))) with (pr_sel re_ok (norm_sel s) && true).
       rewrite (IH Hf). apply andb_true_r.
     - intros items IH Hf. exact (IH Hf).
     - intros g IHg r IHr Hf. cbn [fl_segs] in Hf. apply andb_true_iff in Hf as [Hg Hr].
@@ -1071,15 +1057,12 @@ Proof.
     rewrite L1, R1. split; [reflexivity|].
     change (fl_sels (LCons (norm_sel s) (norm_sels r))) with (fl_sel (norm_sel s) && fl_sels (norm_sels r)).
     rewrite L2, R2. reflexivity.
-  - intros s IH Hf. cbn [fl_seg] in Hf. destruct s as [k|i|a b c| | |e]; try (split; reflexivity).
-    + destruct c; split; reflexivity.
-    + destruct (IH Hf) as [E1 E2].
-      change (norm_seg (GSel (SFilter e))) with (GList (LCons (norm_sel (SFilter e)) LNil)).
-      change (norm_seg (GList (LCons (norm_sel (SFilter e)) LNil)))
-        with (GList (LCons (norm_sel (norm_sel (SFilter e))) LNil)).
-      rewrite E1. split; [reflexivity|].
-      change (fl_seg (GList (LCons (norm_sel (SFilter e)) LNil))) with (fl_sel (norm_sel (SFilter e)) && true).
-      rewrite E2. reflexivity.
+  - intros s IH Hf. cbn [fl_seg] in Hf. destruct (IH Hf) as [E1 E2].
+    change (norm_seg (GSel s)) with (GList (LCons (norm_sel s) LNil)).
+    change (norm_seg (GList (LCons (norm_sel s) LNil))) with (GList (LCons (norm_sel (norm_sel s)) LNil)).
+    rewrite E1. split; [reflexivity|].
+    change (fl_seg (GList (LCons (norm_sel s) LNil))) with (fl_sel (norm_sel s) && true).
+    rewrite E2. reflexivity.
   - intros items IH Hf. destruct (IH Hf) as [E1 E2].
     change (norm_seg (GList items)) with (GList (norm_sels items)).
     change (norm_seg (GList (norm_sels items))) with (GList (norm_sels (norm_sels items))).
@@ -1125,9 +1108,8 @@ Proof.
     change (norm_sels (LCons s r)) with (LCons (norm_sel s) (norm_sels r)).
     change (bk_sels (LCons (norm_sel s) (norm_sels r))) with (bk_sel (norm_sel s) && bk_sels (norm_sels r)).
     rewrite IHs, IHr. reflexivity.
-  - intros s IH. destruct s as [k|i|a b c| | |e]; try reflexivity.
-    change (norm_seg (GSel (SFilter e))) with (GList (LCons (norm_sel (SFilter e)) LNil)).
-    change (bk_seg (GList (LCons (norm_sel (SFilter e)) LNil))) with (bk_sel (norm_sel (SFilter e)) && true).
+  - intros s IH. change (norm_seg (GSel s)) with (GList (LCons (norm_sel s) LNil)).
+    change (bk_seg (GList (LCons (norm_sel s) LNil))) with (bk_sel (norm_sel s) && true).
     rewrite IH. reflexivity.
   - intros items IH. exact IH.
   - intros g IHg r IHr.
